@@ -22,13 +22,16 @@ pub enum MetaVal {
     A { version: String },
     B { version: String, sha: String },
     Loose { version: String },
+    /// a value of an author's type that TOML cannot represent (an integer above i64::MAX):
+    /// writing it must fail and leave the file as it was
+    Unwritable,
 }
 
 impl MetaVal {
     /// ser(m): the `[metadata]` table the model expects on disk for this value.
     pub fn table(&self) -> Option<toml::Table> {
         match self {
-            MetaVal::Absent => None,
+            MetaVal::Absent | MetaVal::Unwritable => None,
             MetaVal::Table(t) => Some(t.clone()),
             MetaVal::A { version } | MetaVal::Loose { version } => {
                 let mut t = toml::Table::new();
@@ -46,7 +49,7 @@ impl MetaVal {
 
     pub fn kind(&self) -> MetaKind {
         match self {
-            MetaVal::Absent | MetaVal::Table(_) => MetaKind::Generic,
+            MetaVal::Absent | MetaVal::Table(_) | MetaVal::Unwritable => MetaKind::Generic,
             MetaVal::A { .. } => MetaKind::A,
             MetaVal::B { .. } => MetaKind::B,
             MetaVal::Loose { .. } => MetaKind::Loose,
